@@ -7,6 +7,7 @@ import (
 	"net"
 	"net/http"
 	"net/http/httputil"
+	"strings"
 	"time"
 
 	"go.uber.org/zap"
@@ -67,7 +68,7 @@ func NewReverseProxy(conf config.ListenerConfig, logger log.Logger) *ReverseProx
 }
 
 func (p *ReverseProxy) ServeHTTP(w http.ResponseWriter, r *http.Request) {
-	if p.timeout != 0 && r.Header.Get("upgrade") != "websocket" {
+	if p.timeout != 0 && !strings.EqualFold(r.Header.Get("upgrade"), "websocket") {
 		ctx, cancel := context.WithTimeout(r.Context(), p.timeout)
 		defer cancel()
 
